@@ -15,6 +15,21 @@ static void x_init_custom(xst *s, const char *fn, const uint8_t *c, size_t cl, s
 static void x_absorb(xst *s, const uint8_t *p, size_t n) { if (A) ascon_xofa_absorb(&s->xa, p, n); else ascon_xof_absorb(&s->x, p, n); }
 static void x_squeeze(xst *s, uint8_t *p, size_t n) { if (A) ascon_xofa_squeeze(&s->xa, p, n); else ascon_xof_squeeze(&s->x, p, n); }
 static void x_free(xst *s) { if (A) ascon_xofa_free(&s->xa); else ascon_xof_free(&s->x); }
+static void x_reinit(xst *s) { if (A) ascon_xofa_reinit(&s->xa); else ascon_xof_reinit(&s->x); }
+static void x_reinit_fixed(xst *s, size_t n) { if (A) ascon_xofa_reinit_fixed(&s->xa, n); else ascon_xof_reinit_fixed(&s->x, n); }
+static void x_reinit_custom(xst *s, const char *fn, const uint8_t *c, size_t cl, size_t n) { if (A) ascon_xofa_reinit_custom(&s->xa, fn, c, cl, n); else ascon_xof_reinit_custom(&s->x, fn, c, cl, n); }
+/* a state object with a past: one of six histories (other variant, whole blocks absorbed with nothing pending, pending bytes, squeezed, unused), selected by k */
+static void x_used(xst *s, unsigned k, const uint8_t *msg)
+{
+    switch (k % 6) {
+    case 0: x_init(s); break;
+    case 1: x_init_fixed(s, 77); x_absorb(s, msg, 16); break;
+    case 2: x_init_custom(s, "used", msg, 3, 32); x_absorb(s, msg, 5); break;
+    case 3: { uint8_t t[20]; x_init_fixed(s, 32); x_absorb(s, msg, 8); x_squeeze(s, t, 20); break; }
+    case 4: x_init_fixed(s, 0); break;
+    default: { uint8_t t[8]; x_init(s); x_squeeze(s, t, 8); break; }
+    }
+}
 
 static void cmp(const char *key, const uint8_t *got, const uint8_t *exp, size_t n, const char *fmt, size_t a, size_t b, size_t c, size_t d)
 {
@@ -61,6 +76,8 @@ static void plain(void)
                 x_init(&s); x_absorb(&s, mp, i1); x_absorb(&s, mp ? mp + i1 : 0, 0); x_absorb(&s, mp ? mp + i1 : 0, inlen - i1);
                 x_squeeze(&s, out, o1); x_squeeze(&s, out + o1, 0); x_squeeze(&s, out + o1, o2 - o1); x_squeeze(&s, out + o2, ol - o2); x_free(&s);
                 cmp(nm("xof:stream-chunked:xof"), out, exp, ol, "inlen=%zu outlen=%zu split in %zu / out %zu", inlen, ol, i1, o1);
+                if (ol == 9 || ol == mo) { memset(out, 0xAA, ol); x_used(&s, (unsigned)(il + ol), msg); x_reinit(&s); x_absorb(&s, mp, inlen); x_squeeze(&s, out, ol); x_free(&s);
+                    cmp(nm("xof:reinit:xof"), out, exp, ol, "inlen=%zu outlen=%zu history %zu", inlen, ol, (size_t)((il + ol) % 6), 0); }
             }
             hx_free(out);
         }
@@ -104,6 +121,11 @@ static void fixed(void)
                 x_init_fixed(&s, d); x_absorb(&s, HX_OPT(msg, inlen), inlen); x_squeeze(&s, out, ol); x_free(&s);
                 cmp(nm("xof:fixed:xof"), out, e, ol, "declared=%zu inlen=%zu outlen=%zu", d, inlen, ol, 0);
                 hx_stat("nontrivial", 1);
+                if (ol == 0 || ol == 33 || ol == 80 || ol == (inlen & 15)) {
+                    /* the same through reinit_fixed on an object with a past */
+                    memset(out, 0xAA, ol); x_used(&s, (unsigned)(di + inlen + ol), msg); x_reinit_fixed(&s, d); x_absorb(&s, HX_OPT(msg, inlen), inlen); x_squeeze(&s, out, ol); x_free(&s);
+                    cmp(nm("xof:reinit-fixed:xof"), out, e, ol, "declared=%zu inlen=%zu outlen=%zu history %zu", d, inlen, ol, (size_t)((di + inlen + ol) % 6));
+                }
                 hx_free(out);
             }
         }
@@ -138,6 +160,11 @@ static void cxof(void)
                         x_init_custom(&s, np, HX_OPT(custom, cl), cl, dcl[di]); x_absorb(&s, HX_OPT(msg, inlen), inlen); x_squeeze(&s, out, ol); x_free(&s);
                         cmp(nm("xof:custom:xof"), out, e, ol, "namelen=%zu customlen=%zu declared=%zu inlen/outlen=%zu", rnl, cl, dcl[di], inlen * 1000 + ol);
                         hx_stat("nontrivial", 1);
+                        if (ol == 14 || ol == 40) {
+                            /* the same through reinit_custom on an object with a past */
+                            memset(out, 0xAA, ol); x_used(&s, (unsigned)(nl + cl + inlen + 1), msg); x_reinit_custom(&s, np, HX_OPT(custom, cl), cl, dcl[di]); x_absorb(&s, HX_OPT(msg, inlen), inlen); x_squeeze(&s, out, ol); x_free(&s);
+                            cmp(nm("xof:reinit-custom:xof"), out, e, ol, "namelen=%zu customlen=%zu declared=%zu inlen/outlen=%zu", rnl, cl, dcl[di], inlen * 1000 + ol);
+                        }
                         hx_free(out);
                     }
                 }
